@@ -1,4 +1,4 @@
-import WebPkg.Properties.C20
+import WebPkg.Properties.C20Base
 import WebPkg.Properties.C06
 import WebPkg.Proofs.GoTimeSane
 /-
